@@ -239,6 +239,45 @@ theorem never_after_exit_step (c : RCx) (hw : WndOK c) (hfl : c.fl = .async) (h 
     (∀ t ∈ (exitStepRT c h ev rt p).timers, t.owner ≠ p) ∧ (∀ i ∈ (exitStepRT c h ev rt p).invs, i.owner ≠ p) :=
   exitStep_async_none c hw hfl h ev rt p d hd he
 
+/-- the sync engine cancels the tasks of the WHOLE exit set before the first exit action runs (`_exit_states`: one loop
+    of `_cancel_state_tasks`, then the exit loop): the state in which the exit steps of `ps` start has no timer and no
+    service task owned by any state of `ps` - so no deadline of an ancestor can fall into a slow exit action of one of
+    its descendants and be queued for the activation that the same transition is about to create -/
+theorem sync_exit_set_cancelled_up_front (c : RCx) (hfl : c.fl = .sync) (h : Hooks) (ev : Option String) (ps : List Path) (rt : RT)
+    (he : rt.st.err.isSome = false) :
+    exitAllRT c h ev ps rt = ps.foldl (exitStepRT c h ev) (ps.foldl (fun rt p => cancelOwner c p rt) rt) ∧
+    (∀ t ∈ (ps.foldl (fun rt p => cancelOwner c p rt) rt).timers, t ∈ rt.timers ∧ t.owner ∉ ps) ∧
+    (∀ i ∈ (ps.foldl (fun rt p => cancelOwner c p rt) rt).invs, i ∈ rt.invs ∧ i.owner ∉ ps) := by
+  have hc : ∀ (p : Path) (r : RT), (cancelOwner c p r).timers = r.timers.filter (fun t => t.owner ≠ p) ∧
+      (cancelOwner c p r).invs = r.invs.filter (fun i => i.owner ≠ p) := by
+    intro p r
+    unfold cancelOwner
+    simp only [hfl]
+    split <;> exact ⟨rfl, rfl⟩
+  refine ⟨by unfold exitAllRT; simp [hfl, he], ?_, ?_⟩
+  · clear he
+    induction ps generalizing rt with
+    | nil => intro t ht; exact ⟨ht, by simp⟩
+    | cons p ps ih =>
+      intro t ht
+      rw [List.foldl_cons] at ht
+      obtain ⟨h1, h2⟩ := ih (cancelOwner c p rt) t ht
+      rw [(hc p rt).1, List.mem_filter] at h1
+      refine ⟨h1.1, ?_⟩
+      have : t.owner ≠ p := by simpa using h1.2
+      simp [this, h2]
+  · clear he
+    induction ps generalizing rt with
+    | nil => intro i hi; exact ⟨hi, by simp⟩
+    | cons p ps ih =>
+      intro i hi
+      rw [List.foldl_cons] at hi
+      obtain ⟨h1, h2⟩ := ih (cancelOwner c p rt) i hi
+      rw [(hc p rt).2, List.mem_filter] at h1
+      refine ⟨h1.1, ?_⟩
+      have : i.owner ≠ p := by simpa using h1.2
+      simp [this, h2]
+
 /-- `stop()` leaves no timer and no service task — at the moment it is done. (What the interpreter's own task does afterwards,
     when the stop arrived INSIDE a macrostep, is `stop_inside_macrostep_arms_tasks` below: findings F72 – F74.) -/
 theorem never_after_stop (rt : RT) (h1 : rt.st.status ≠ "uninitialized") (h2 : rt.st.status ≠ "stopped") :
